@@ -551,3 +551,20 @@ func (it *orderInterp) runAll(fn *types.Func, recv *oval, args []*oval, visit fu
 		}
 	}
 }
+
+// runAllBody evaluates body under every resolution of the undetermined comparisons it runs into.
+func (it *orderInterp) runAllBody(body func()) {
+	var tapes [][]bool
+	tapes = append(tapes, nil)
+	for len(tapes) > 0 && len(tapes) < 65536 {
+		t := tapes[len(tapes)-1]
+		tapes = tapes[:len(tapes)-1]
+		it.tape = append([]bool{}, t...)
+		it.pos = 0
+		body()
+		for i := len(t); i < len(it.tape); i++ {
+			alt := append(append([]bool{}, it.tape[:i]...), true)
+			tapes = append(tapes, alt)
+		}
+	}
+}
